@@ -458,6 +458,86 @@ theorem analyze_holderOK_setop (env : Env) (silent : Bool) (s : Stmt) (hp : env.
   | noop _ _ => simp [fragStmtSetop] at hs
   | unsupported _ => simp [fragStmtSetop] at hs
 
+/-! ### statements without column lineage: plain SELECT, DROP, statements that move no data -/
+
+/-- a holder none of whose edges leaves a column, and without RENAME edge, projects trivially -/
+theorem holderOK_of_noColSrc (h : LGraph) (hE : ∀ u v, (u, v) ∈ h.edges → u.isCol = false ∧ h.ety u v ≠ some .rename) :
+    HolderOK h := by
+  refine ⟨?_, ?_, ?_⟩
+  · simp only [stmtRename, List.filter_eq_nil_iff]
+    intro e he
+    have := (hE e.1 e.2 (mem_edgesOrdered _ _ he)).2
+    simpa using this
+  · intro u v he d T hd
+    have h1 := (hE u v he).1
+    have h2 := (dsEdge_isCol hd).1
+    rw [h1] at h2; cases h2
+  · intro _ u v he d T hd
+    have h1 := (hE u v he).1
+    have h2 := (dsEdge_isCol hd).1
+    rw [h1] at h2; cases h2
+
+/-- the other statement kinds the script-level theorem admits: a plain SELECT over base tables, DROP, a no-op kind -/
+def plainStmt : Stmt → Bool
+  | .query (.select d its frm wh grp hav) br => fragPlainSelect (.query (.select d its frm wh grp hav) br)
+  | .drop _ _ _ => true
+  | .noop _ _ => true
+  | _ => false
+
+theorem analyze_holderOK_plain (env : Env) (silent : Bool) (s : Stmt) (hs : plainStmt s = true) (g : LGraph)
+    (hg : analyze env silent s = .ok g) : HolderOK g ∧ Paths.WF g := by
+  cases s with
+  | query q br =>
+    cases q with
+    | setop _ _ => simp [plainStmt] at hs
+    | withq _ _ => simp [plainStmt] at hs
+    | select d its frm wh grp hav =>
+      obtain ⟨d', its', frm', wh', grp', hav', br', heq, hg'⟩ := analyze_plain env silent _ (by simpa [plainStmt] using hs)
+      cases heq
+      rw [hg] at hg'
+      cases hg'
+      have hR := reads_edges (fromTabs env frm) (fromTabs_isTabRef env frm)
+      refine ⟨holderOK_of_noColSrc _ ?_, (wf_foldl_addReadO _ (fromTabs_isTabRef env frm) _ ExportLemmas.wf_empty).edges⟩
+      intro u v he
+      obtain ⟨o, _, a, _, hu, _⟩ := (hR u v).1.mp he
+      refine ⟨by rw [hu]; rfl, ?_⟩
+      rw [(hR u v).2 he]; simp
+  | drop vw ie tgt =>
+    have hg0 : g = exDrop env tgt ∨ g = Graph.empty := by
+      unfold analyze at hg
+      split at hg
+      · split at hg <;> simp at hg
+        exact Or.inr hg.symm
+      · simp at hg; exact Or.inl hg.symm
+    have hnoE : g.edges = [] := by
+      rcases hg0 with rfl | rfl
+      · simp [exDrop, addDrop]
+      · rfl
+    refine ⟨holderOK_of_noColSrc _ (by intro u v he; rw [hnoE] at he; cases he), ?_⟩
+    intro e he; rw [hnoE] at he; cases he
+  | noop k t =>
+    have hg0 : g = Graph.empty := by
+      unfold analyze at hg
+      split at hg
+      · split at hg <;> simp at hg
+        exact hg.symm
+      · simp at hg; exact hg.symm
+    subst hg0
+    refine ⟨holderOK_of_noColSrc _ (by intro u v he; cases he), ?_⟩
+    intro e he; cases he
+  | insert _ _ _ _ _ _ => simp [plainStmt] at hs
+  | insertValues _ _ _ => simp [plainStmt] at hs
+  | ctas _ _ _ _ _ => simp [plainStmt] at hs
+  | createView _ _ _ _ => simp [plainStmt] at hs
+  | createTable _ _ _ => simp [plainStmt] at hs
+  | createTableLike _ _ => simp [plainStmt] at hs
+  | update _ _ _ _ _ => simp [plainStmt] at hs
+  | merge _ _ _ _ _ _ => simp [plainStmt] at hs
+  | copy _ _ => simp [plainStmt] at hs
+  | alterRename _ _ => simp [plainStmt] at hs
+  | renameTable _ => simp [plainStmt] at hs
+  | unsupported _ => simp [plainStmt] at hs
+
 /-! ### the fragment does not look at the provider -/
 
 theorem elemTabs_prov (env : Env) (pv : ProvView) (e : FromElem) : elemTabs { env with prov := pv } e = elemTabs env e := by
